@@ -85,8 +85,9 @@ def full_links_echo(seed, params):
     rng = random.Random(seed)
     net = Network(name="net")
     rec = Recorder("replies")
-    servers = [_echo_server(f"srv{i}", net, p.lat(4 + i)) for i in range(2)]
-    clients = [_client(f"cli{i}", net, rec) for i in range(3)]
+    n_srv = p.count(1, 2, lo=1, hi=4)
+    servers = [_echo_server(f"srv{i}", net, p.lat(4 + i)) for i in range(n_srv)]
+    clients = [_client(f"cli{i}", net, rec) for i in range(p.count(0, 3, lo=1, hi=5))]
     k = 0
     for c in clients:
         for s in servers:
@@ -113,7 +114,7 @@ def full_links_echo(seed, params):
     sim = make_sim([net, rec, mon, stranger, *servers, *clients], p.end())
     for i, t in enumerate(arr):
         c = clients[i % len(clients)]
-        sim.schedule(ev(t, "start", c, worker=i, dst=servers[rng.randrange(2)], size=rng.choice([1, 64, 1500, 65_536])))
+        sim.schedule(ev(t, "start", c, worker=i, dst=servers[rng.randrange(n_srv)], size=rng.choice([1, 64, 1500, 65_536])))
     sim.schedule(ev(min(arr), "start", mon))
     comps = {"net": net, "replies": rec, "monitor": mon}
     comps.update({f"link{j}": l for j, l in enumerate(net._routes.values())})
@@ -180,8 +181,8 @@ def partition_in_flight(seed, params):
     rng = random.Random(seed)
     net = Network(name="net")
     rec = Recorder("replies")
-    servers = [_echo_server(f"srv{i}", net, p.lat(3 + i)) for i in range(2)]
-    clients = [_client(f"cli{i}", net, rec) for i in range(2)]
+    servers = [_echo_server(f"srv{i}", net, p.lat(3 + i)) for i in range(p.count(1, 2, lo=2, hi=4))]
+    clients = [_client(f"cli{i}", net, rec) for i in range(p.count(0, 2, lo=2, hi=5))]
     k = 0
     for c in clients:
         for s in servers:
@@ -270,3 +271,186 @@ def default_link_gateway(seed, params):
         True,
         len(arr) + 2,
     )
+
+
+# ----------------------------------------------------------------------
+# wide configurations: fan-out counts, parameters out of proportion, degenerate routing
+
+
+@scenario("network.fanout_one_sender", "network")
+def fanout_one_sender(seed, params):
+    """One sender, n = count(0) receivers (1..12), one link each; every arrival is a fan-out of n
+    packets on one nanosecond.  x.v even: every link has the SAME latency (n deliveries on one
+    instant); odd: latencies cycle through the drawn list.  Latencies are used unscaled."""
+    p = P(params, seed)
+    n = p.count(0, 9, lo=1, hi=12)
+    same = int(p.x("v", seed)) % 2 == 0
+    net = Network(name="net")
+    rec = Recorder("replies")
+    receivers = [_echo_server(f"rcv{i}", net, p.lat(1)) for i in range(n)]
+
+    def sender(proc, event):
+        md = event.context["metadata"]
+        if event.event_type == "Reply":
+            rec.received += 1
+            proc.done += 1
+            return None
+        return [
+            net.send(proc, r, "Request", payload={"rid": md["worker"], "reply_to": proc, "payload_size": 100 * (1 + j % 3)})
+            for j, r in enumerate(receivers)
+        ]
+
+    snd = Proc("sender", sender)
+    for j, r in enumerate(receivers):
+        lat = p.lat(0) if same else p.lat(j)
+        link = NetworkLink(
+            name=f"l_{r.name}",
+            latency=ConstantLatency(lat),
+            # no jitter on the same-latency variant: all n packets land on one nanosecond
+            jitter=None if same else ExponentialLatency(p.lat(j + 1)),
+            bandwidth_bps=None if same else 1_000_003.0,
+            packet_loss_rate=0.0 if same else 0.02,
+        )
+        net.add_bidirectional_link(snd, r, link)
+    arr = p.arrivals(6)
+    sim = make_sim([net, rec, snd, *receivers], p.end())
+    for i, t in enumerate(arr):
+        sim.schedule(ev(t, "start", snd, worker=i))
+    return Scenario(sim, {"net": net, "replies": rec, **{l.name: l for l in net._routes.values()}}, "network", True, len(arr))
+
+
+@scenario("network.chain_of_hops", "network")
+def chain_of_hops(seed, params):
+    """A packet relayed over n = count(0) hops (1..12) of identical latency: the arrival time at
+    the last hop is n additions of the same latency (0.0003 s x 9, 0.3 s x 3 ...)."""
+    p = P(params, seed)
+    n = p.count(0, 5, lo=1, hi=12)
+    lat = p.lat(0)
+    net = Network(name="net")
+    sink = Recorder("sink")
+    hops: list = []
+
+    def relay(proc, event):
+        md = event.context["metadata"]
+        proc.done += 1
+        j = md["hop"] + 1
+        nxt = hops[j] if j < len(hops) else sink
+        return [net.send(proc, nxt, "Hop", payload={"hop": j, "rid": md.get("rid"), "payload_size": 10})]
+
+    hops.extend(Proc(f"hop{i}", relay) for i in range(n))
+    chain = [*hops, sink]
+    for a, b in zip(chain, chain[1:]):
+        net.add_link(a, b, NetworkLink(name=f"l_{a.name}", latency=ConstantLatency(lat)))
+    arr = p.arrivals(6)
+    sim = make_sim([net, sink, *hops], max(p.end(), lat * (n + 1) * 1.5))
+    for i, t in enumerate(arr):
+        sim.schedule(ev(t, "Hop", hops[0], hop=0, rid=i))
+    return Scenario(sim, {"net": net, "sink": sink}, "network", True, len(arr))
+
+
+def _below(v: float, ceil: float) -> float:
+    """Divide by ten until <= ceil (never below one nanosecond)."""
+    while v > ceil:
+        v /= 10.0
+    return max(v, 1e-9)
+
+
+@scenario("network.extreme_links", "network")
+def extreme_links(seed, params):
+    """Link parameters out of proportion, one link per case, same traffic over each:
+    tiny bandwidth (serialisation >> latency), huge bandwidth, jitter >> latency, loss 0.999,
+    loss 0, latency exactly 0 (no jitter, no bandwidth), zero latency with jitter only."""
+    p = P(params, seed)
+    end = p.end()
+    net = Network(name="net")
+    rec = Recorder("replies")
+    cli = _client("cli", net, rec)
+    small = _below(p.lat(0), end / 5000.0)
+    big = min(max(p.lat(1), small * 300), end / 20.0)
+    cases = [
+        ("tiny_bw", dict(latency=ConstantLatency(small), bandwidth_bps=float(p.x("tiny_bw", 9_600.0)), jitter=ExponentialLatency(small))),
+        ("huge_bw", dict(latency=ConstantLatency(p.lat(2)), bandwidth_bps=1e15, jitter=ExponentialLatency(small))),
+        ("jitter_dominates", dict(latency=ConstantLatency(small), jitter=ExponentialLatency(big), bandwidth_bps=1e9)),
+        ("loss_999", dict(latency=ConstantLatency(p.lat(3)), jitter=ExponentialLatency(p.lat(4)), packet_loss_rate=0.999)),
+        ("loss_0", dict(latency=ConstantLatency(p.lat(4)), jitter=ExponentialLatency(p.lat(5)), packet_loss_rate=0.0)),
+        ("zero_latency", dict(latency=ConstantLatency(0.0))),
+        ("zero_latency_jitter", dict(latency=ConstantLatency(0.0), jitter=ExponentialLatency(p.lat(0)))),
+        ("one_ns", dict(latency=ConstantLatency(1e-9), jitter=ConstantLatency(1e-9), bandwidth_bps=8e9)),
+    ]
+    servers = []
+    for j, (nm, kw) in enumerate(cases):
+        srv = _echo_server(f"srv_{nm}", net, p.lat(j))  # positive think time: no zero-delay ping-pong
+        servers.append(srv)
+        net.add_bidirectional_link(cli, srv, NetworkLink(name=nm, **kw))
+    arr = p.arrivals(16)
+    sim = make_sim([net, rec, cli, *servers], end)
+    for i, t in enumerate(arr):
+        sim.schedule(ev(t, "start", cli, worker=i, dst=servers[i % len(servers)], size=[0, 1, 1200, 12_000][i % 4]))
+    return Scenario(sim, {"net": net, "replies": rec, **{l.name: l for l in net._routes.values()}}, "network", True, len(arr))
+
+
+@scenario("network.degenerate_routing", "network")
+def degenerate_routing(seed, params):
+    """Self-send (source == destination) over a self-link, send to an unknown destination, a node
+    partitioned from itself, heal of a partition that was never created, double heal, overlapping
+    partitions healed in the other order - all while ordinary traffic flows."""
+    p = P(params, seed)
+    net = Network(name="net")
+    rec = Recorder("replies")
+    ghost = Recorder("ghost")  # never linked
+    srv = _echo_server("srv", net, p.lat(2))
+    cli = _client("cli", net, rec)
+
+    def loner(proc, event):
+        md = event.context["metadata"]
+        if event.event_type == "Self":
+            proc.done += 1
+            if md.get("n", 0) < 3:  # a few laps around the self-link
+                return [net.send(proc, proc, "Self", payload={"n": md.get("n", 0) + 1, "payload_size": 8})]
+            return None
+        return [
+            net.send(proc, proc, "Self", payload={"n": 0, "payload_size": 8}),
+            net.send(proc, ghost, "Lost", payload={"payload_size": 8}),
+            net.send(ghost, proc, "FromNowhere", payload={"payload_size": 8}),
+        ]
+
+    solo = Proc("solo", loner)
+    net.add_link(solo, solo, _link(p, 0, "self_link", loss=0.0))
+    net.add_bidirectional_link(cli, srv, _link(p, 1, "l_cli_srv", loss=0.01))
+    arr = p.arrivals(10)
+    t0 = min(arr)
+    gap = p.lat(0) + p.lat(1)
+
+    def chaos(proc, event):
+        net.heal_partition()  # nothing to heal
+        yield gap * 0.25
+        me = net.partition([solo], [solo])  # a node cut off from itself
+        proc.log.append(("self_cut", net.is_partitioned("solo", "solo"), me.is_active))
+        yield gap
+        a = net.partition([cli], [srv])
+        b = net.partition([cli], [srv, ghost])  # overlaps `a`
+        yield gap
+        a.heal()
+        proc.log.append(("a_healed", net.is_partitioned("cli", "srv"), a.is_active, b.is_active))
+        a.heal()  # double heal
+        yield gap
+        b.heal()
+        me.heal()
+        proc.log.append(("all_healed", net.is_partitioned("cli", "srv"), net.is_partitioned("solo", "solo")))
+        net.partition([], [cli])  # empty group: no pairs
+        net.heal_partition()
+        proc.done += 1
+        return [ev(proc.now.nanoseconds, "start", solo, worker=99), ev(proc.now.nanoseconds, "start", cli, worker=98, dst=srv, size=64)]
+
+    ch = Proc("chaos", chaos)
+    sim = make_sim([net, rec, ghost, srv, cli, solo, ch], p.end())
+    for i, t in enumerate(arr):
+        if i % 2:
+            sim.schedule(ev(t, "start", solo, worker=i))
+        else:
+            sim.schedule(ev(t, "start", cli, worker=i, dst=srv, size=64 + i))
+    sim.schedule(ev(t0, "start", ch))
+    for j in range(6):  # traffic during every phase of the chaos script
+        t = t0 + int(gap * (0.5 + 0.6 * j) * 1e9)
+        sim.schedule(ev(t, "start", solo if j % 2 else cli, worker=50 + j, dst=srv, size=32))
+    return Scenario(sim, {"net": net, "replies": rec, "chaos": ch, "solo": solo}, "network", True, len(arr) + 9)
